@@ -351,6 +351,16 @@ class RealRun(object):
         for i in list(self.b.world.ircs):
             self.b.world.ircs.remove(i)
         self.irc = self.b.irclib.Irc('test')
+        self.trace = []
+        irc = self.irc
+        feed = irc.feedMsg; reset = irc.reset; tr = self.trace
+        def feedMsg(msg, tag=True):
+            tr.append(('msg', irc.state.fsm.state.name, msg.command))
+            return feed(msg, tag)
+        def reset_():
+            tr.append(('reset',))
+            return reset()
+        irc.feedMsg = feedMsg; irc.reset = reset_
         self.c = c
         self.ops = []
         self.lines = [cfg_line(dict(cfg, certvalidation=c['certvalidation']), real=True,
@@ -399,7 +409,9 @@ class RealRun(object):
         o.wanted = set(type(irc).REQUEST_CAPABILITIES)
         o.x = {'wire': list(w.sent), 'events': list(w.events), 'policies': dict(net.stsPolicies),
                'lastdisc': dict(net.lastDisconnectTimes), 'connected': drv.connected, 'sock': w.nsock,
-               'current': tuple(drv.currentServer), 'inbuffer': bytes(drv.inbuffer), 'queued': queued}
+               'current': tuple(drv.currentServer), 'inbuffer': bytes(drv.inbuffer), 'queued': queued,
+               'trace': list(self.trace)}
+        del self.trace[:]
         w.sent = []; w.events = []
         return o
 
@@ -460,36 +472,52 @@ class RealRun(object):
 
 LATE_STATES = ('INIT_WAITING_MOTD', 'INIT_MOTD', 'CONNECTED', 'CONNECTED_SASL')
 
+def _is_903(line):
+    t = line.split(' ')
+    if t and t[0].startswith(':'):
+        t = t[1:]
+    return bool(t) and t[0] == '903'
+
 def required_oracle(cfg, ops, obs):
     """C09: with sasl.required the bot never sends CAP END / JOIN, never is past the negotiation and never
-    sets afterConnect unless SASL succeeded (903 seen => sasl_authenticated) on this connection.
+    sets afterConnect on a connection where SASL did not succeed.  "Succeeded" is judged from the outside:
+    the server sent 903 while the bot was inside a SASL exchange (state INIT_SASL / CONNECTED_SASL, which it
+    only enters after the server acknowledged `sasl`) — not from the bot's own flag.
     Stub-driver histories: judged until the first driver abort of an epoch."""
     if not cfg.get('required'):
         return []
     bad = []
     aborted = False
+    success = False
+    prev = None
     for op, o in zip([('new',)] + list(ops), obs):
         if o is None:
             continue
         if op[0] == 'reset':
-            aborted = False
+            aborted = False; success = False
+        if op[0] == 'msg' and prev is not None and _is_903(op[1]) and prev.fsm in FSM_SASL:
+            success = True
+        prev = o
         if aborted:
             continue
-        # in the very step in which Irc.do376 aborts, Owner.do376 (a callback running after it) still queues the
-        # JOINs; with the real driver they land in the queue that reconnect() has just reset and that is reset
-        # again before the next connection (checked on the wire in the real-driver histories), so only the
-        # recording stub ever hands them out: not judged in the abort step itself
-        sent = [m for m in o.msgs if (m.command == 'CAP' and m.args[:1] == ('END',)) or (m.command == 'JOIN' and not o.calls)]
-        if not o.auth:
+        sent = _judged_sends(o)
+        if not success:
             if sent:
-                bad.append(('sasl_required_safe', 'sasl.required is set, SASL did not succeed, but the bot sent %r' % [(m.command,) + tuple(m.args) for m in sent]))
+                bad.append(('sasl_required_safe', 'sasl.required is set, no SASL exchange succeeded, but the bot sent %r' % [(m.command,) + tuple(m.args) for m in sent]))
             if o.after:
-                bad.append(('sasl_required_safe', 'sasl.required is set, SASL did not succeed, but afterConnect is set'))
+                bad.append(('sasl_required_safe', 'sasl.required is set, no SASL exchange succeeded, but afterConnect is set'))
             if o.fsm in LATE_STATES:
-                bad.append(('sasl_required_safe', 'sasl.required is set, SASL did not succeed, but the connection state is %s' % o.fsm))
+                bad.append(('sasl_required_safe', 'sasl.required is set, no SASL exchange succeeded, but the connection state is %s' % o.fsm))
         if o.calls:
             aborted = True
     return bad
+
+def _judged_sends(o):
+    # in the very step in which Irc.do376 aborts, Owner.do376 (a callback running after it) still queues the
+    # JOINs; with the real driver they land in the queue that reconnect() has just reset and that is reset
+    # again before the next connection (checked on the wire in the real-driver histories), so only the
+    # recording stub ever hands them out: not judged in the abort step itself
+    return [m for m in o.msgs if (m.command == 'CAP' and m.args[:1] == ('END',)) or (m.command == 'JOIN' and not o.calls)]
 
 def sts_tokens(line):
     """the `sts` items of a CAP LS / CAP NEW line the bot will look at: list of policy strings (None for a
@@ -536,17 +564,23 @@ def real_oracle(run):
     c = run.c
     certval = bool(c['certvalidation'])
     pending_upgrade = None      # (port) the next connection must use
+    success = False             # a SASL exchange succeeded in the current epoch
     sock_lines = {}             # socket id -> lines sent on it so far
     for op, o in zip(run.ops, run.obs):
         x = o.x
-        # --- sasl.required on the wire
-        if c['required'] and not o.auth:
+        # --- sasl.required on the wire ("succeeded" = 903 received inside a SASL exchange, this epoch)
+        for t in x['trace']:
+            if t[0] == 'reset':
+                success = False
+            elif t[2] == '903' and t[1] in FSM_SASL:
+                success = True
+        if c['required'] and not success:
             for sid, data in x['wire']:
                 for l in data.decode('utf-8', 'replace').split('\r\n'):
                     if l.startswith('CAP END') or l.startswith('JOIN '):
-                        bad.append(('sasl_required_safe', 'sasl.required is set, SASL did not succeed, but %r was written to socket %d' % (l, sid)))
+                        bad.append(('sasl_required_safe', 'sasl.required is set, no SASL exchange succeeded, but %r was written to socket %d' % (l, sid)))
             if o.after or o.fsm in LATE_STATES:
-                bad.append(('sasl_required_safe', 'sasl.required is set, SASL did not succeed, but state=%s afterConnect=%s' % (o.fsm, o.after)))
+                bad.append(('sasl_required_safe', 'sasl.required is set, no SASL exchange succeeded, but state=%s afterConnect=%s' % (o.fsm, o.after)))
         # --- per socket: what was written
         fresh_after_delivery = set()
         dl = x.get('delivered')
